@@ -48,6 +48,37 @@ def warmupTieMargin (seconds scantime : Rat) : Rat :=
   let r := x - (x.floor : Rat)
   if r < 1 / 2 then 1 / 2 - r else r - 1 / 2
 
+/-- the statement of theorem `offsets_setter_exact`, evaluated on the rows `[stored, size]` a configuration
+reports for the offsets `pairs` it was given: one row per offset, one common sub-pixel size `≥ 1`, every
+denominator divides it and `stored / size = offset / denominator` exactly -/
+def setterExact (pairs : List (Nat × Nat)) (rows : List (Int × Int)) : Bool :=
+  decide (rows.length = pairs.length) &&
+  rows.all (fun r => decide (r.2 = (rows.headD (0, 1)).2)) &&
+  (List.zip pairs rows).all (fun (p, r) =>
+    decide (1 ≤ r.2) && decide (r.2 % (p.2 : Int) = 0) && decide (r.1 * (p.2 : Int) = (p.1 : Int) * r.2))
+
+def parseRows (j : Json) : R (List (Int × Int)) :=
+  asList (fun p => do
+      match (← asList asInt p) with
+      | [o, d] => pure (o, d)
+      | _ => throw "row [stored, size] expected") j
+
+/-- one assignment of an offset list through the `subpixel_offsets` setter: the state the model's exact
+setter produces, its array round trip, and the specification evaluated on the reported rows -/
+def setterReply (spotsize speed scantime seconds m : Rat) (entry : Json) : R Json := do
+  let pairs ← parsePairs entry "pairs"
+  let c := SrrConfig.make spotsize speed scantime seconds pairs
+  let hyp := !pairs.isEmpty && pairs.all (fun p => decide (1 ≤ p.2))
+  let exact ← (match (← fld entry "observed") with
+    | .null => (pure none : R (Option Bool))
+    | o => do pure (some (setterExact pairs (← parseRows o))))
+  pure (jObj [
+    ("config", jCfg c), ("spp", jNat (subpixelsPerPixel c.size m)), ("hyp", jBool hyp),
+    ("roundtrip_model", jCfg (SrrConfig.fromArray c.toArray)),
+    ("spp_roundtrip", jNat (subpixelsPerPixel (SrrConfig.fromArray c.toArray).size m)),
+    ("spec_fractions", jList (fun (p : Nat × Nat) => jRat ((p.1 : Rat) / (p.2 : Rat))) pairs),
+    ("observed_exact", jOpt jBool exact)])
+
 def handle (op : String) (req : Json) : R Json := do
   match op with
   | "c09.srr" =>
@@ -106,6 +137,17 @@ def handle (op : String) (req : Json) : R Json := do
       ("flat_model", Json.arr flatModel.toArray), ("flat_spec", Json.arr flatSpecs.toArray),
       ("layer_model", Json.arr layerReads.toArray), ("layer_spec", Json.arr layerSpecs.toArray),
       ("roundtrip_model", jCfg (SrrConfig.fromArray c.toArray)), ("roundtrip_spec", jCfg c)])
+  | "c09.config" =>
+    -- the configuration alone (no stack): `sets` is a history of offset lists assigned one after the other
+    let cj ← fld req "cfg"
+    let spotsize ← getRat cj "spotsize"
+    let speed ← getRat cj "speed"
+    let scantime ← getRat cj "scantime"
+    let seconds ← getRat cj "warmup"
+    let m ← getRat req "mag"
+    let sets ← getList (setterReply spotsize speed scantime seconds m) req "sets"
+    pure (jObj [("sets", Json.arr sets.toArray), ("mag", jNat (magInt m)),
+                ("warmup_margin", jRat (warmupTieMargin seconds scantime))])
   | _ => throw s!"unknown op {op}"
 
 end PewDriver.C09
